@@ -11,7 +11,7 @@ from verifkit import gen, typegen
 ID = "C01"
 THM_MODULES = ["Minicbor.Thm.C01"]
 P = "Minicbor.C01."
-REQUIRED = ["Minicbor.C01.roundtrip_example"]
+REQUIRED = [P + n for n in "roundtrip roundtrip_exact roundtrip_position roundtrip_list optopt_lossy optopt_lossy_general".split()]
 PACKAGES = ["hcore"]
 RULE = ("for every concrete instantiation printed by `hcore tlist` (every built-in Encode/Decode impl at least once, nested "
         "combinations): boundary values (all 2^k±3 and width edges 23/24, 255/256, 65535/65536, 2^32-1/2^32, 2^63, 2^64-1 with their "
